@@ -65,4 +65,53 @@ theorem parsed_expression_lines_lie_in_the_source (cfg : Parse.Cfg) (input : Byt
     (s' : Parse.PSt) (hk : Parse.parseExpression cfg n ctx s = .ok (e, tk) s') : e.LinesOk input :=
   ((exprLines_all input cfg n).pexpr ctx s ⟨hs, hp⟩ _ _ hk).2.1
 
+/-! ### non-vacuity -/
+
+/-- the source `{{ .a }}⏎{{ .b }}` (two lines) -/
+private def src : Bytes := [123, 123, 32, 46, 97, 32, 125, 125, 10, 123, 123, 32, 46, 98, 32, 125, 125]
+/-- its items -/
+private def srcItems : List Parse.Item :=
+  [⟨Tok.leftDelim, 0, [123, 123]⟩, ⟨Tok.space, 2, [32]⟩, ⟨Tok.field, 3, [46, 97]⟩,
+   ⟨Tok.space, 5, [32]⟩, ⟨Tok.rightDelim, 6, [125, 125]⟩, ⟨Tok.text, 8, [10]⟩,
+   ⟨Tok.leftDelim, 9, [123, 123]⟩, ⟨Tok.space, 11, [32]⟩, ⟨Tok.field, 12, [46, 98]⟩,
+   ⟨Tok.space, 14, [32]⟩, ⟨Tok.rightDelim, 15, [125, 125]⟩, ⟨Tok.eof, 17, []⟩]
+private def cfg0 : Parse.Cfg := { lit := fun _ _ => .unknown, load := fun _ => none }
+private def isOk : Parse.PRes (Nat × List Parse.PStmt) → Bool | .ok _ _ => true | _ => false
+
+/-- the hypotheses of `parsed_tree_lines_lie_in_the_source` are satisfiable: the items are well-formed and the
+    parser returns a tree (three nodes: an action on line 1, the newline text, an action on line 2) -/
+example : C02P.WfItems src srcItems ∧
+    ∃ rl nodes s', Parse.parseTemplate cfg0 30 { input := src, name := [], toks := srcItems } = .ok (rl, nodes) s' ∧
+      nodes.length = 3 ∧ Parse.LineOk src rl ∧ ∀ n ∈ nodes, n.LinesOk src := by
+  have hw : C02P.WfItems src srcItems := by
+    refine ⟨?_, eofLast_of_dropLast (by decide)⟩
+    intro t ht
+    simp [srcItems] at ht
+    rcases ht with rfl | rfl | rfl | rfl | rfl | rfl | rfl | rfl | rfl | rfl | rfl | rfl <;>
+      refine ⟨by decide, by decide, ?_⟩ <;> intro h <;> first | exact ⟨_, _, rfl⟩ | cases h
+  refine ⟨hw, ?_⟩
+  have hok : isOk (Parse.parseTemplate cfg0 30 { input := src, name := [], toks := srcItems }) = true ∧
+      (match Parse.parseTemplate cfg0 30 { input := src, name := [], toks := srcItems } with
+        | .ok r _ => r.2.length | _ => 0) = 3 := by decide +kernel
+  cases hp : Parse.parseTemplate cfg0 30 { input := src, name := [], toks := srcItems } with
+  | ok r s =>
+    obtain ⟨rl, nodes⟩ := r
+    have := parsed_tree_lines_lie_in_the_source cfg0 [] src srcItems 30 hw rl nodes s hp
+    rw [hp] at hok
+    exact ⟨rl, nodes, s, rfl, hok.2, this.1, this.2.1⟩
+  | err l m => rw [hp] at hok; simp [isOk] at hok
+  | crash w => rw [hp] at hok; simp [isOk] at hok
+  | fuel => rw [hp] at hok; simp [isOk] at hok
+  | unsupported w => rw [hp] at hok; simp [isOk] at hok
+
+/-- the predicate holds of the second action of that tree ... -/
+example : (Parse.PStmt.action 2 none (some { line := 2, cmds :=
+    [{ line := 2, callLine := 0, base := .field 2 [[98]], args := none, hasSlot := false }] })).LinesOk src := by
+  simp [PStmt.LinesOk, PPipe.LinesOk, PCmd.LinesOk, PExpr.LinesOk, LineOk, src, countNl]
+
+/-- ... and it is not trivially true: a field node that claims line 3 of the two-line source fails it -/
+example : ¬ (Parse.PStmt.action 2 none (some { line := 2, cmds :=
+    [{ line := 2, callLine := 0, base := .field 3 [[98]], args := none, hasSlot := false }] })).LinesOk src := by
+  simp [PStmt.LinesOk, PPipe.LinesOk, PCmd.LinesOk, PExpr.LinesOk, LineOk, src, countNl]
+
 end JetVerif.Props.C12L
